@@ -195,7 +195,8 @@ def replay_lines(lines, session, rng):
     # drop everything before the last reset
     if "reset" in sess:
         k = len(sess) - 1 - sess[::-1].index("reset")
-        sess = sess[k:]
+        # `reset` clears the syntax table and the objects, not the `cfg` settings
+        sess = [l for l in sess[:k] if l.startswith("cfg ")] + sess[k:]
     return sess + lines[a:b]
 
 
